@@ -75,31 +75,32 @@ ISum(f, n) == IF n = 0 THEN 0 ELSE f[n] + ISum(f, n - 1)
 RECURSIVE RSum(_, _)
 RSum(f, n) == IF n = 0 THEN <<0, 1>> ELSE RAdd(f[n], RSum(f, n - 1))
 
-Id(d)  == [i \in 1..d |-> [j \in 1..d |-> IF i = j THEN 1 ELSE 0]]
-RId(d) == [i \in 1..d |-> [j \in 1..d |-> IF i = j THEN <<1, 1>> ELSE <<0, 1>>]]
+Id(d)  == TLCEval([i \in 1..d |-> TLCEval([j \in 1..d |-> IF i = j THEN 1 ELSE 0])])
+RId(d) == TLCEval([i \in 1..d |-> TLCEval([j \in 1..d |-> IF i = j THEN <<1, 1>> ELSE <<0, 1>>])])
 Rows(A) == Len(A)
 Cols(A) == Len(A[1])
-IMatMul(A, B) == [i \in 1..Rows(A) |-> [j \in 1..Cols(B) |->
-                    ISum([k \in 1..Cols(A) |-> A[i][k] * B[k][j]], Cols(A))]]
-RMatMul(A, B) == [i \in 1..Rows(A) |-> [j \in 1..Cols(B) |->
-                    RSum([k \in 1..Cols(A) |-> RMul(A[i][k], B[k][j])], Cols(A))]]
-Transpose(A) == [i \in 1..Cols(A) |-> [j \in 1..Rows(A) |-> A[j][i]]]
-ToR(A) == [i \in 1..Rows(A) |-> [j \in 1..Cols(A) |-> RInt(A[i][j])]]
-Col(A, j) == [i \in 1..Rows(A) |-> A[i][j]]
-Unit(d, i) == [k \in 1..d |-> IF k = i THEN 1 ELSE 0]
+IMatMul(A, B) == TLCEval([i \in 1..Rows(A) |-> TLCEval([j \in 1..Cols(B) |->
+                    ISum([k \in 1..Cols(A) |-> A[i][k] * B[k][j]], Cols(A))])])
+RMatMul(A, B) == TLCEval([i \in 1..Rows(A) |-> TLCEval([j \in 1..Cols(B) |->
+                    RSum([k \in 1..Cols(A) |-> RMul(A[i][k], B[k][j])], Cols(A))])])
+Transpose(A) == TLCEval([i \in 1..Cols(A) |-> TLCEval([j \in 1..Rows(A) |-> A[j][i]])])
+ToR(A) == TLCEval([i \in 1..Rows(A) |-> TLCEval([j \in 1..Cols(A) |-> RInt(A[i][j])])])
+Col(A, j) == TLCEval([i \in 1..Rows(A) |-> A[i][j]])
+Unit(d, i) == TLCEval([k \in 1..d |-> IF k = i THEN 1 ELSE 0])
 (* matrix whose columns are the given vectors *)
-FromCols(cs) == [i \in 1..Len(cs[1]) |-> [j \in 1..Len(cs) |-> cs[j][i]]]
+FromCols(cs) == LET c == TLCEval([j \in 1..Len(cs) |-> TLCEval(cs[j])])
+                IN TLCEval([i \in 1..Len(c[1]) |-> TLCEval([j \in 1..Len(c) |-> c[j][i]])])
 
-Minor(A, r, c) == [i \in 1..(Rows(A) - 1) |-> [j \in 1..(Cols(A) - 1) |->
-                     A[IF i < r THEN i ELSE i + 1][IF j < c THEN j ELSE j + 1]]]
+Minor(A, r, c) == TLCEval([i \in 1..(Rows(A) - 1) |-> TLCEval([j \in 1..(Cols(A) - 1) |->
+                     A[IF i < r THEN i ELSE i + 1][IF j < c THEN j ELSE j + 1]])])
 RECURSIVE Det(_)
 Det(A) == IF Rows(A) = 1 THEN A[1][1]
           ELSE ISum([j \in 1..Cols(A) |->
                        (IF j % 2 = 1 THEN 1 ELSE -1) * A[1][j] * Det(Minor(A, 1, j))], Cols(A))
 
 BlockDiag1(A) == LET n == Rows(A) IN
-  [i \in 1..(n + 1) |-> [j \in 1..(n + 1) |->
-     IF i <= n /\ j <= n THEN A[i][j] ELSE IF i = j THEN 1 ELSE 0]]
+  TLCEval([i \in 1..(n + 1) |-> TLCEval([j \in 1..(n + 1) |->
+     IF i <= n /\ j <= n THEN A[i][j] ELSE IF i = j THEN 1 ELSE 0])])
 
 -----------------------------------------------------------------------------
 (* quarter turns *)
@@ -109,7 +110,7 @@ NegQ(q) == (4 - (q % 4)) % 4
 
 NoAngles(d) == (d * (d - 1)) \div 2
 AllPlanes   == << <<1, 2>>, <<1, 3>>, <<2, 3>>, <<1, 4>>, <<2, 4>>, <<3, 4>> >>
-Planes(d)   == [k \in 1..NoAngles(d) |-> AllPlanes[k]]
+Planes(d)   == TLCEval([k \in 1..NoAngles(d) |-> AllPlanes[k]])
 
 (* rotation in the oriented plane (e_i, e_j): e_i -> cos e_i + sin e_j,
    e_j -> -sin e_i + cos e_j, all other axes fixed; given by its columns *)
@@ -139,24 +140,24 @@ Derotate(d, qs) == DerotUpTo(d, qs, NoAngles(d))
 
 (* anisotropy: es = exponents of the d-1 transversal ratios *)
 Ratio(es, i)   == IF i = 1 THEN <<1, 1>> ELSE Pow2(es[i - 1])       \* i = axis number 1..d
-Stretch(d, es) == [i \in 1..d |-> [j \in 1..d |-> IF i = j THEN Ratio(es, i) ELSE <<0, 1>>]]
-Shrink(d, es)  == [i \in 1..d |-> [j \in 1..d |-> IF i = j THEN RInv(Ratio(es, i)) ELSE <<0, 1>>]]
+Stretch(d, es) == TLCEval([i \in 1..d |-> TLCEval([j \in 1..d |-> IF i = j THEN Ratio(es, i) ELSE <<0, 1>>])])
+Shrink(d, es)  == TLCEval([i \in 1..d |-> TLCEval([j \in 1..d |-> IF i = j THEN RInv(Ratio(es, i)) ELSE <<0, 1>>])])
 
 Iso(d, qs, es)   == RMatMul(Shrink(d, es), ToR(Derotate(d, qs)))
 Aniso(d, qs, es) == RMatMul(ToR(Rotate(d, qs)), Stretch(d, es))
 
 (* i-th main axis = image of e_i under the rotation *)
-MainAxes(d, qs) == [i \in 1..d |-> Col(Rotate(d, qs), i)]
+MainAxes(d, qs) == LET R == Rotate(d, qs) IN TLCEval([i \in 1..d |-> Col(R, i)])
 
 (* spatio-temporal models: the planes containing the last (time) axis are never rotated *)
-TemporalQs(d, qs) == [k \in 1..NoAngles(d) |-> IF k > NoAngles(d - 1) THEN 0 ELSE qs[k]]
+TemporalQs(d, qs) == TLCEval([k \in 1..NoAngles(d) |-> IF k > NoAngles(d - 1) THEN 0 ELSE qs[k]])
 TIso(d, qs, es)   == Iso(d, TemporalQs(d, qs), es)
 TAniso(d, qs, es) == Aniso(d, TemporalQs(d, qs), es)
 
-RVec(v)        == [i \in 1..Len(v) |-> RInt(v[i])]
-RMatVec(A, v)  == [i \in 1..Rows(A) |-> RSum([k \in 1..Cols(A) |-> RMul(A[i][k], v[k])], Cols(A))]
+RVec(v)        == TLCEval([i \in 1..Len(v) |-> RInt(v[i])])
+RMatVec(A, v)  == TLCEval([i \in 1..Rows(A) |-> RSum([k \in 1..Cols(A) |-> RMul(A[i][k], v[k])], Cols(A))])
 RNorm2(v)      == RSum([i \in 1..Len(v) |-> RSq(v[i])], Len(v))
-RScale(c, v)   == [i \in 1..Len(v) |-> RMul(c, v[i])]
+RScale(c, v)   == TLCEval([i \in 1..Len(v) |-> RMul(c, v[i])])
 
 -----------------------------------------------------------------------------
 (* documented conventions, stated without SignRule / Order *)
@@ -187,8 +188,8 @@ QVecs(d) == IF NoAngles(d) = 0 THEN {<<>>}
             ELSE {qs \in [1..NoAngles(d) -> 0..3] : qs[1] \in Q1Set}
 Configs == UNION {{[d |-> d, qs |-> qs, es |-> es] : qs \in QVecs(d), es \in ExpSet[d]} : d \in Dims}
 
-Flat(A)  == [n \in 1..(Rows(A) * Cols(A)) |-> A[((n - 1) \div Cols(A)) + 1][((n - 1) % Cols(A)) + 1]]
-FlatQ4(A) == [n \in 1..(Rows(A) * Cols(A)) |-> Q4(A[((n - 1) \div Cols(A)) + 1][((n - 1) % Cols(A)) + 1])]
+Flat(A)  == TLCEval([n \in 1..(Rows(A) * Cols(A)) |-> A[((n - 1) \div Cols(A)) + 1][((n - 1) % Cols(A)) + 1]])
+FlatQ4(A) == TLCEval([n \in 1..(Rows(A) * Cols(A)) |-> Q4(A[((n - 1) \div Cols(A)) + 1][((n - 1) % Cols(A)) + 1])])
 
 (* test matrix: the unit vectors followed by the test positions, as columns *)
 XMat(d) == FromCols([k \in 1..(d + Len(XPts[d])) |-> IF k <= d THEN Unit(d, k) ELSE XPts[d][k - d]])
